@@ -37,10 +37,13 @@ def run_generated(args):
         R.check_invariants(-1)
         R.compare_states("C02", -1, what="initial joint state")
         i = 0
-        while i < nsteps and not R.findings:
-            st = g.next_step(R.w)
+        pre = g.prelude(R.w) if rng.random() < 0.7 else []
+        while i < nsteps + len(pre) and not R.findings:
+            st = pre.pop(0) if pre else g.next_step(R.w)
             if st is None:
                 break
+            if not valid_now(R.w, st):
+                continue
             cell = describe(R.w, st)
             prog["steps"].append(strip(st))
             try:
@@ -55,11 +58,28 @@ def run_generated(args):
         R.findings.append(Finding("HARNESS", f"setup: {type(ex).__name__}: {ex} :: {traceback.format_exc(limit=4)[-400:]}", -1))
     res["findings"] = [(f.prop, f.msg, f.step) for f in R.findings]
     res["known"] = R.stats.get("known", [])
+    res["route_mismatches"] = R.route_mismatches
     res["program"] = prog
     res["nontrivial"] = nontrivial(R)
     res["wall"] = time.time() - t0
     res["stats"] = {k: v for k, v in R.stats.items() if k != "known"}
     return res
+
+
+def valid_now(w, st):
+    """a prelude step may have become inapplicable (e.g. the envelope was absorbed meanwhile)"""
+    try:
+        if st["kind"] == "struct" and st["what"] == "env_combine":
+            e = w.envs[st["env"]]
+            return e.state is None and e.fock.index is None and e.polarization.index is None and not e.measured
+        if st["kind"] == "struct" and st["what"] == "env_reorder":
+            return w.envs[st["env"]].state is not None
+        if st.get("entry") == "env":
+            t = w.subs[st["targets"][0]]
+            return not getattr(t, "measured", False) and t.envelope is not None and not t.envelope.measured
+        return True
+    except Exception:
+        return False
 
 
 def run_fixed(prog):
@@ -70,7 +90,7 @@ def run_fixed(prog):
         R.run(json.loads(json.dumps(prog)))
     except Exception as ex:
         R.findings.append(Finding("HARNESS", f"{type(ex).__name__}: {ex} :: {traceback.format_exc(limit=4)[-400:]}", -1))
-    return {"findings": [(f.prop, f.msg, f.step) for f in R.findings], "known": R.stats.get("known", []), "program": prog,
+    return {"findings": [(f.prop, f.msg, f.step) for f in R.findings], "known": R.stats.get("known", []), "program": prog, "route_mismatches": R.route_mismatches,
             "nontrivial": nontrivial(R), "stats": {k: v for k, v in R.stats.items() if k != "known"}}
 
 
@@ -123,6 +143,10 @@ if __name__ == "__main__":
                 ex.setdefault(key, (r["seed"], cell, f[2]))
             for k in r["known"]:
                 cnt["KNOWN " + k[1][:60]] += 1
+            for m in r.get("route_mismatches", [])[:1]:
+                key = f"ROUTE {m.get('kind')}:{m.get('what')} entry={m.get('entry')}"
+                cnt[key] += 1
+                ex.setdefault(key, (r["seed"], m.get("step"), str(m.get("model"))[:150], str(m.get("impl"))[:150]))
     for k, v in sorted(cnt.items(), key=lambda kv: -kv[1]):
         print(v, k, ex.get(k, ""))
     print("wall", time.time() - t0)
